@@ -885,6 +885,17 @@ mod tests {
             "---@field a string?\n--- \\[optional] second\n--- - item\n---@field b string?\n"
         ));
         assert!(output.contains("--- \\in seconds\n---@field c string?\n"));
+
+        // The first field's description follows the class header.
+        let schema = json!({
+            "title": "Config",
+            "type": "object",
+            "properties": {
+                "a": { "type": "string", "description": ": Parent" }
+            }
+        });
+        let output = converter().convert(&schema).annotation_text;
+        assert!(output.contains("---@class schema.Config\n--- \\: Parent\n---@field a string?\n"));
     }
 
     #[test]
